@@ -340,6 +340,52 @@ def g_modulated(rng, extra=True):
     return "\n".join(lines)
 
 
+def g_chains(rng, total_max=8, kind=None):
+    """A small core (motif-avoidant corpus core, the two-variable burst oscillator, a multi-attractor
+    core or a plain input) that triggers several *chains* of latches: `x1 | t`, `x1 & (x2 | t)`, ...
+    The trap-space lattice is a grid (product of chains): most nodes have several parents, parents
+    are discovered in different orders by different strategies (a node can be created before one of
+    its parents), and the core attractor lies in the intersection of many sub-diagram nodes."""
+    cs = cores()
+    if kind is None:
+        kind = rng.choice(["maa", "maa", "burst", "multi", "input"])
+    if kind in ("maa", "multi"):
+        c = rng.choice([x for x in cs[kind] if x["n"] == 3])
+        cn = ["c0", "c1", "c2"]
+        lines = core_lines(c, cn)
+    elif kind == "burst":
+        cn = ["a", "b"]
+        lines = ["a, !a & !b", "b, !a & !b"]
+        if rng.random() < 0.7:
+            lines.append("c, c | (a & b)")
+    else:
+        cn = ["a"]
+        lines = ["a, a"] if rng.random() < 0.5 else ["a, !a"]
+    left = total_max - len(lines)
+    nchains = 0
+    while left > 0 and nchains < 3:
+        ln = rng.randint(1, min(2, left)) if rng.random() < 0.8 else min(3, left)
+        left -= ln
+        t = rng.choice(cn)
+        if rng.random() < 0.3:
+            t = f"({t} & {rng.choice(cn)})" if rng.random() < 0.5 else f"!{t}"
+        pre = "xyz"[nchains]
+        prev = None
+        for k in range(ln):
+            v = f"{pre}{k + 1}"
+            if prev is None:
+                lines.append(f"{v}, {v} | {t}")
+            elif rng.random() < 0.7:
+                lines.append(f"{v}, {prev} & ({v} | {t})")
+            else:
+                lines.append(f"{v}, {v} | ({prev} & {t})")
+            prev = v
+        nchains += 1
+        if rng.random() < 0.25:
+            break
+    return "\n".join(lines)
+
+
 def g_mixed(rng, nmax=6, p_core=0.4):
     r = rng.random()
     if nmax >= 5 and r < 0.12:
@@ -347,6 +393,8 @@ def g_mixed(rng, nmax=6, p_core=0.4):
     r = rng.random()
     if r < 0.22:
         return g_lattice(rng, rng.randint(3, nmax))
+    if nmax >= 5 and r < 0.30:
+        return g_chains(rng, total_max=min(nmax, 6), kind=rng.choice(["burst", "burst", "input", "maa"]))
     r = rng.random()
     if r < p_core:
         return g_compose(rng, extra_max=max(0, nmax - 4))
